@@ -1,6 +1,7 @@
 (** C10 — Invalid parameters are rejected with an error; accepted instances never panic. *)
 From Yata Require Import Base.Prelude Base.Num Base.NumR Core.Window Core.WindowSpec Core.Candle Core.Strings
-  Spec.Hist Methods.Basic Methods.Select Proofs.MethodsCommon Proofs.Totality Proofs.StringsProofs.
+  Spec.Hist Methods.Basic Methods.Select Methods.Convert Indicators.Common Indicators.Set1 Indicators.Set2 Indicators.Set3 Indicators.Set4 Indicators.Set5
+  Proofs.MethodsCommon Proofs.Totality Proofs.Totality2 Proofs.Totality3 Proofs.StringsProofs.
 Open Scope Z_scope.
 
 Section C10.
@@ -55,3 +56,106 @@ Theorem C10_sma_never_pushes_into_empty_window {pw : PW} n (v : @F NumR) xs x : 
   exists s0, sma_new n v = Ok s0 /\
     let s := steps sma_next s0 xs in w_push (sma_window s) x = Ok (w_push_t (sma_window s) x).
 Proof. exact (sma_never_panics n v xs x). Qed.
+
+(** the MA constructor (helpers::MA::init) never panics: any kind, any length, any construction value, any carrier *)
+Theorem C10_ma_constructor_never_panics {pw : PW} {N : Num} (c : ma_cfg) (v : F) : is_panic (ma_init c v) = false.
+Proof. exact (ma_init_never_panics c v). Qed.
+
+(** [init] of every modelled indicator reaches no panic path of the model, whatever the configuration and the first candle
+    (it returns an instance or an error): the model's explicit panic sites (assertions, empty-window pushes, slice
+    indexing) are unreachable.  A window requested inside [init] is modelled by the total wrapper [w_new_t]; that its
+    capacity stays in 1 ..= MAX-1 whenever [init] accepts (no capacity assertion in Window::new, no push into an empty window in next) is the second group of theorems ([C10_cap_*], one per direct
+    request; windows built by method constructors are bounded by the constructor classification theorems above). *)
+Section C10i.
+Context {pw : PW} {N : Num}.
+Theorem C10_init_adx (c : adx_cfg) (k : candle) : is_panic (adx_init c k) = false.
+Proof. exact (adx_init_never_panics c k). Qed.
+Theorem C10_init_ao (c : ao_cfg) (k : candle) : is_panic (ao_init c k) = false.
+Proof. exact (ao_init_never_panics c k). Qed.
+Theorem C10_init_aroon (period : Z) (zone : F) (ozp : Z) (k : candle) : is_panic (aroon_init period zone ozp k) = false.
+Proof. exact (aroon_init_never_panics period zone ozp k). Qed.
+Theorem C10_init_boll (c : boll_cfg) (k : candle) : is_panic (boll_init c k) = false.
+Proof. exact (boll_init_never_panics c k). Qed.
+Theorem C10_init_ccii (period : Z) (zone : F) (src : source) (k : candle) : is_panic (ccii_init period zone src k) = false.
+Proof. exact (ccii_init_never_panics period zone src k). Qed.
+Theorem C10_init_cks (ma : ma_cfg) (x : F) (q : Z) (src : source) (k : candle) : is_panic (cks_init ma x q src k) = false.
+Proof. exact (cks_init_never_panics ma x q src k). Qed.
+Theorem C10_init_cmf (size : Z) (k : candle) : is_panic (cmf_init size k) = false.
+Proof. exact (cmf_init_never_panics size k). Qed.
+Theorem C10_init_cmo (period : Z) (zone : F) (src : source) (k : candle) : is_panic (cmo_init period zone src k) = false.
+Proof. exact (cmo_init_never_panics period zone src k). Qed.
+Theorem C10_init_co (ma1 ma2 : ma_cfg) (window : Z) (k : candle) : is_panic (co_init ma1 ma2 window k) = false.
+Proof. exact (co_init_never_panics ma1 ma2 window k). Qed.
+Theorem C10_init_cop (c : cop_cfg) (k : candle) : is_panic (cop_init c k) = false.
+Proof. exact (cop_init_never_panics c k). Qed.
+Theorem C10_init_donch (period : Z) (k : candle) : is_panic (donch_init period k) = false.
+Proof. exact (donch_init_never_panics period k). Qed.
+Theorem C10_init_dpo (ma : ma_cfg) (src : source) (k : candle) : is_panic (dpo_init ma src k) = false.
+Proof. exact (dpo_init_never_panics ma src k). Qed.
+Theorem C10_init_efi (ma : ma_cfg) (p2 : Z) (src : source) (k : candle) : is_panic (efi_init ma p2 src k) = false.
+Proof. exact (efi_init_never_panics ma p2 src k). Qed.
+Theorem C10_init_env (c : env_cfg) (k : candle) : is_panic (env_init c k) = false.
+Proof. exact (env_init_never_panics c k). Qed.
+Theorem C10_init_eom (ma : ma_cfg) (p2 : Z) (k : candle) : is_panic (eom_init ma p2 k) = false.
+Proof. exact (eom_init_never_panics ma p2 k). Qed.
+Theorem C10_init_hmai (period lft right : Z) (src : source) (k : candle) : is_panic (hmai_init period lft right src k) = false.
+Proof. exact (hmai_init_never_panics period lft right src k). Qed.
+Theorem C10_init_ichi (l1 l2 l3 m : Z) (src : source) (k : candle) : is_panic (ichi_init l1 l2 l3 m src k) = false.
+Proof. exact (ichi_init_never_panics l1 l2 l3 m src k). Qed.
+Theorem C10_init_kauf (c : kauf_cfg) (k : candle) : is_panic (kauf_init c k) = false.
+Proof. exact (kauf_init_never_panics c k). Qed.
+Theorem C10_init_kelt (ma : ma_cfg) (sigma : F) (src : source) (k : candle) : is_panic (kelt_init ma sigma src k) = false.
+Proof. exact (kelt_init_never_panics ma sigma src k). Qed.
+Theorem C10_init_kst (c : kst_cfg) (k : candle) : is_panic (kst_init c k) = false.
+Proof. exact (kst_init_never_panics c k). Qed.
+Theorem C10_init_kvo (ma1 ma2 signal : ma_cfg) (k : candle) : is_panic (kvo_init ma1 ma2 signal k) = false.
+Proof. exact (kvo_init_never_panics ma1 ma2 signal k). Qed.
+Theorem C10_init_macd (c : macd_cfg) (k : candle) : is_panic (macd_init c k) = false.
+Proof. exact (macd_init_never_panics c k). Qed.
+Theorem C10_init_mfi (period : Z) (zone : F) (k : candle) : is_panic (mfi_init period zone k) = false.
+Proof. exact (mfi_init_never_panics period zone k). Qed.
+Theorem C10_init_momi (p1 p2 : Z) (src : source) (k : candle) : is_panic (momi_init p1 p2 src k) = false.
+Proof. exact (momi_init_never_panics p1 p2 src k). Qed.
+Theorem C10_init_pch (period : Z) (sigma : F) (k : candle) : is_panic (pch_init period sigma k) = false.
+Proof. exact (pch_init_never_panics period sigma k). Qed.
+Theorem C10_init_prs (lft right : Z) (k : candle) : is_panic (prs_init lft right k) = false.
+Proof. exact (prs_init_never_panics lft right k). Qed.
+Theorem C10_init_psar (step mx : F) (k : candle) : is_panic (psar_init step mx k) = false.
+Proof. exact (psar_init_never_panics step mx k). Qed.
+Theorem C10_init_rsi (c : rsi_cfg) (k : candle) : is_panic (rsi_init c k) = false.
+Proof. exact (rsi_init_never_panics c k). Qed.
+Theorem C10_init_rvi (p1 p2 : Z) (signal : ma_cfg) (zone : F) (k : candle) : is_panic (rvi_init p1 p2 signal zone k) = false.
+Proof. exact (rvi_init_never_panics p1 p2 signal zone k). Qed.
+Theorem C10_init_smi (p1 p2 : Z) (signal : ma_cfg) (zone : F) (src : source) (k : candle) : is_panic (smi_init p1 p2 signal zone src k) = false.
+Proof. exact (smi_init_never_panics p1 p2 signal zone src k). Qed.
+Theorem C10_init_sto (c : sto_cfg) (k : candle) : is_panic (sto_init c k) = false.
+Proof. exact (sto_init_never_panics c k). Qed.
+Theorem C10_init_trix (p1 : Z) (signal : ma_cfg) (src : source) (k : candle) : is_panic (trix_init p1 signal src k) = false.
+Proof. exact (trix_init_never_panics p1 signal src k). Qed.
+Theorem C10_init_tsii (p1 p2 p3 : Z) (zone : F) (src : source) (k : candle) : is_panic (tsii_init p1 p2 p3 zone src k) = false.
+Proof. exact (tsii_init_never_panics p1 p2 p3 zone src k). Qed.
+Theorem C10_init_tsx (period : Z) (zone : F) (offset : Z) (src : source) (k : candle) : is_panic (tsx_init period zone offset src k) = false.
+Proof. exact (tsx_init_never_panics period zone offset src k). Qed.
+Theorem C10_init_wcci (p1 p2 lag : Z) (src : source) (k : candle) : is_panic (wcci_init p1 p2 lag src k) = false.
+Proof. exact (wcci_init_never_panics p1 p2 lag src k). Qed.
+Theorem C10_cap_cmo period zone src k s : cmo_init period zone src k = Ok s -> cap_ok period.
+Proof. exact (cmo_cap period zone src k s). Qed.
+Theorem C10_cap_mfi period zone k s : mfi_init period zone k = Ok s -> cap_ok period.
+Proof. exact (mfi_cap period zone k s). Qed.
+Theorem C10_cap_cmf size k s : cmf_init size k = Ok s -> cap_ok size.
+Proof. exact (cmf_cap size k s). Qed.
+Theorem C10_cap_dpo ma src k s : dpo_init ma src k = Ok s -> cap_ok (ma_period ma / 2 + 1).
+Proof. exact (dpo_cap ma src k s). Qed.
+Theorem C10_cap_efi ma p2 src k s : efi_init ma p2 src k = Ok s -> cap_ok p2.
+Proof. exact (efi_cap ma p2 src k s). Qed.
+Theorem C10_cap_adx c k s : adx_init c k = Ok s -> cap_ok (ac_period1 c).
+Proof. exact (adx_cap c k s). Qed.
+Theorem C10_cap_prs lft right k s : prs_init lft right k = Ok s -> cap_ok right.
+Proof. exact (prs_cap lft right k s). Qed.
+Theorem C10_cap_ichi l1 l2 l3 m src k s : ichi_init l1 l2 l3 m src k = Ok s -> cap_ok m.
+Proof. exact (ichi_cap l1 l2 l3 m src k s). Qed.
+Theorem C10_cap_eom ma p2 k s : eom_init ma p2 k = Ok s -> cap_ok p2.
+Proof. exact (eom_cap ma p2 k s). Qed.
+Theorem C10_cap_tsx period zone offset src k s : tsx_init period zone offset src k = Ok s -> cap_ok period.
+Proof. exact (tsx_cap period zone offset src k s). Qed.
+End C10i.
